@@ -76,6 +76,21 @@ class C09(Prop):
     def cases(self, rng: random.Random, tier: str) -> Iterable[dict]:
         while True:
             r = rng.random()
+            if r < 0.08:
+                # two nodes over ONE function whose output names are the same set in a different order, sharing a cache
+                outs = ["lo", "hi", "mid"][: rng.choice([2, 3])]
+                perm = outs[:]
+                while perm == outs:
+                    rng.shuffle(perm)
+                na = {"name": "na", "kind": "fn", "params": [["x", None]], "dataOuts": outs, "body": {"b": "multi", "t": "shared", "k": len(outs)}, "cache": True}
+                nb = {"name": "nb", "kind": "fn", "params": [["x", None]], "dataOuts": [o + "2" for o in perm], "body": {"b": "multi", "t": "shared", "k": len(outs)},
+                      "cache": True, "sameFuncAs": "na"}
+                # same names in another order need a second graph (one graph cannot hold two producers of a name)
+                prog_a = [{"name": "g0", "nodes": [na], "bound": []}]
+                nb2 = dict(nb, dataOuts=perm, name="na", sameFuncAs=None)
+                yield {"kind": "runs2", "programs": [prog_a, [{"name": "g0", "nodes": [dict(na, dataOuts=perm)], "bound": []}]],
+                       "values": [["x", rng.randint(0, 5)]], "backend": rng.choice(["mem", "lru2", "disk"]), "runner": rng.choice(["sync", "async"])}
+                continue
             if r < 0.65:
                 g = rng.random()
                 if g < 0.5:
@@ -118,6 +133,8 @@ class C09(Prop):
     def impl(self, case: dict) -> Any:
         if case["kind"] == "disk":
             return self._impl_disk(case)
+        if case["kind"] == "runs2":
+            return self._impl_runs2(case)
         tmp = None
         if case["backend"] == "disk":
             tmp = tempfile.mkdtemp(prefix="hgc09_")
@@ -151,6 +168,33 @@ class C09(Prop):
                 ops.append(["get", k])
                 gets.append(vid.get(repr(sorted(op[3].items(), key=lambda kv: kv[0])) if isinstance(op[3], dict) else repr(op[3])) if op[2] else None)
         return {"runs": runs, "ops": ops, "gets": gets, "hits": sum(1 for g in gets if g is not None)}
+
+    def _impl_runs2(self, case: dict) -> Any:
+        """Two graphs whose single node wraps the SAME function object (same definition) with permuted output names, one shared cache."""
+        tmp = None
+        if case["backend"] == "disk":
+            tmp = tempfile.mkdtemp(prefix="hgc09_")
+            cache: Any = DiskCache(tmp)
+        elif case["backend"] == "mem":
+            cache = InMemoryCache()
+        else:
+            cache = InMemoryCache(max_size=int(case["backend"][3:]))
+        try:
+            env = Env()
+            out = []
+            for prog in case["programs"] + case["programs"]:
+                # share the function object across the graphs: the second build reuses env.funcs of the first
+                spec = prog[0]["nodes"][0]
+                if "0:na" in env.funcs:
+                    spec = dict(spec, sameFuncAs="na")
+                    prog = [{**prog[0], "nodes": [spec]}]
+                ref = impl.run_case(prog, None, case["values"], {}, case["runner"], async_bodies=False, env=env)
+                got = impl.run_case(prog, None, case["values"], {}, case["runner"], async_bodies=False, env=env, cache=cache)
+                out.append({"ref": _core(ref), "got": _core(got), "ref_calls": [], "got_calls": [], "routes_ref": [], "routes_got": []})
+            return {"runs": out, "ops": [], "gets": [], "hits": 1}
+        finally:
+            if tmp:
+                shutil.rmtree(tmp, ignore_errors=True)
 
     def _impl_disk(self, case: dict) -> Any:
         import diskcache
@@ -231,7 +275,7 @@ class C09(Prop):
                 return f"run {i} with the shared cache returned {r['got']}, the uncached run returns {r['ref']}"
             if r["routes_got"] != r["routes_ref"] and False:
                 return f"run {i}: routing decisions differ with the cache"
-        shared_fn = any(n.get("sameFuncAs") for g in case["program"] for n in g["nodes"])   # both nodes log under one id
+        shared_fn = case["kind"] == "runs2" or any(n.get("sameFuncAs") for g in case["program"] for n in g["nodes"])   # both nodes log under one id
         if (case["backend"] == "mem" or case.get("check_reinvoke")) and not shared_fn:
             # retained forever: a cacheable node's function runs at most once per distinct arguments over the whole sequence
             seen: dict[str, int] = {}
@@ -257,7 +301,7 @@ class C09(Prop):
             if ig != m["gets"]:
                 return f"disk scenario: impl={ig} model={m['gets']}"
             return None
-        if case["backend"] == "disk" or not i["ops"]:
+        if case["kind"] == "runs2" or case["backend"] == "disk" or not i["ops"]:
             return None
         ms = None if case["backend"] == "mem" else int(case["backend"][3:])
         m = driver.ask({"op": "lru", "maxSize": ms, "ops": i["ops"]})
@@ -275,6 +319,8 @@ class C09(Prop):
         if case["kind"] == "disk":
             return {"kind": "disk", "tampers": sum(1 for s in case["steps"] if s["t"] in TAMPERS), "torn": sum(1 for s in case["steps"] if s["t"] == "crashSet"),
                     "hits": sum(1 for g in obs["gets"] if g["hit"] != {"miss": 1})}
+        if case["kind"] == "runs2":
+            return {"kind": "runs2", "backend": case["backend"]}
         return {"kind": "runs", "backend": case["backend"], "runs": len(case["runs"]), "hits": min(obs["hits"], 10), "ops": min(len(obs["ops"]), 40) // 10 * 10}
 
     def signature(self, case: dict, obs: Any, why: str) -> str:
